@@ -174,7 +174,7 @@ def run(ctx):
         cases = [json.load(open(ctx.replay))["case"]]
     else:
         rnd = random.Random(ctx.seed * 911 + 11)
-        count = ctx.pick(96, 2000)
+        count = ctx.pick(96, 800)
         cases = []
         # every configuration x {small, buffer-crossing} first, then random
         for cfg in CFGS:
